@@ -176,7 +176,7 @@ func init() {
 			if c.Expired() {
 				break
 			}
-			BFS(c, &PartialFamily{Nmax: pick(c, 3, 4), TR: 63, UndoBud: pick(c, 1, 2), SetLimit: 2, NoIngest: true, Prop: "C09", UndoAs: "C06", Collect: "C06", Base: b}, 0)
+			BFS(c, &PartialFamily{Nmax: pick(c, 3, 4), TR: 63, UndoBud: 1, SetLimit: 2, NoIngest: true, Prop: "C09", UndoAs: "C06", Collect: "C06", Base: b}, 0)
 		}
 		if !c.Expired() {
 			d3 := &HistFamily{
@@ -188,18 +188,6 @@ func init() {
 			}
 			c.Cov.Bound["three_undos.Nmax"] = d3.Nmax
 			BFS(c, d3, 0)
-		}
-		if c.Thorough() && !c.Expired() {
-			deep := &HistFamily{
-				Nmax:      7,
-				Insts:     stdInsts([]uint8{0, 63}, []string{"all", "even"})[1:],
-				Or:        HistOracle{Roots: true, Proofs: true, Lookups: true, Prop: "C06", OnlyAfter: "undo", ProofSets: "small"},
-				UndoBud:   1,
-				PermLimit: 2,
-			}
-			c.Cov.Bound["deep.Nmax"] = deep.Nmax
-			c.Cov.Bound["deep.undo_budget"] = 1
-			BFS(c, deep, 0)
 		}
 		if !c.Expired() {
 			tallFamily(c, "C06")
